@@ -10,6 +10,8 @@ uncancel around absorbed AnyIO cancellations).
 
 from __future__ import annotations
 
+from ..collect import guarded
+
 import itertools
 
 from .. import native_twins, treecheck, treefam
@@ -52,17 +54,17 @@ def judge(case: dict, col) -> None:  # noqa: ANN001
         for _p, clause, detail in res["viol"]:
             col.violation(clause, detail, case)
     else:
-        treecheck.judge(PROPERTY, case, col)
+        guarded(col, case, treecheck.judge, PROPERTY, case, col)
 
 
 def run_shard(desc: dict, col) -> None:  # noqa: ANN001
     for i, case in enumerate(all_cases(desc["tier"], desc["seed"])):
         if i % desc["of"] == desc["shard"]:
-            judge(case, col)
+            guarded(col, case, judge, case, col)
 
 
 def replay(case: dict, col) -> None:  # noqa: ANN001
-    judge(case, col)
+    guarded(col, case, judge, case, col)
 
 
 def finish(col, tier: str) -> None:  # noqa: ANN001
